@@ -16,7 +16,9 @@
     The specification oracle ([Spec.sstep]) runs on the implementation's replies
     only.  Known finding 1 is recognised from the case itself: the first reply
     the oracle rejects is a read at a root on which an empty MemSet replaced a
-    pending tree (see [clobbers]) and that read returns nothing. *)
+    pending tree (see [clobbers]) and that read returns nothing.  Known finding 2:
+    the first rejected reply is ErrHashNotFound to a Commit of the nil hash sent
+    through the queue. *)
 From Coq Require Import List ZArith NArith Bool.
 From C33 Require Import Lib.Harness C01.Keys C01.Model C01.Spec C01.Store C04.Model C04.Spec.
 Import ListNotations.
@@ -38,7 +40,7 @@ Inductive iout :=
 | ONum (n : N).
 
 Inductive case :=
-| CSeq (pfx : bool) (keys vals : list bytes) (steps : list (iop * iout))
+| CSeq (pfx q : bool) (keys vals : list bytes) (steps : list (iop * iout))
 | CConc (pfx : bool) (keys vals : list bytes) (steps : list (iop * iout * (N * N))).
 
 Definition nth_b (l : list bytes) (i : N) : bytes := nth (N.to_nat i) l [].
@@ -83,7 +85,7 @@ Definition agree (vals : list bytes) (e : env) (io : iout) (mo : out) : option e
   end.
 
 (** the model's step for a harness operation; [None] = a token that names nothing yet *)
-Definition mstep (keys vals : list bytes) (e : env) (s : st) (o : iop) : option (out * st) :=
+Definition mstep0 (keys vals : list bytes) (e : env) (s : st) (o : iop) : option (out * st) :=
   match o with
   | IMemSet p kvs => match a_get e p with
                      | Some x => Some (step s (OMemSet x (kvs_of keys vals kvs)))
@@ -101,12 +103,23 @@ Definition mstep (keys vals : list bytes) (e : env) (s : st) (o : iop) : option 
   | ICount => Some (RUnit, s)                 (* compared separately *)
   end.
 
-Definition magree (keys vals : list bytes) (e : env) (s : st) (o : iop) (io : iout) : option (env * st) :=
+(** through the queue, the reply to a Commit is what base.go makes of it *)
+Definition mstep (q : bool) (keys vals : list bytes) (e : env) (s : st) (o : iop) : option (out * st) :=
+  match mstep0 keys vals e s o with
+  | Some (mo, s') =>
+      Some (match o with
+            | ICommit _ => if q then via_queue (OCommit XNil) mo else mo
+            | _ => mo
+            end, s')
+  | None => None
+  end.
+
+Definition magree (q : bool) (keys vals : list bytes) (e : env) (s : st) (o : iop) (io : iout) : option (env * st) :=
   match o, io with
   | ICount, ONum n => if N.eqb n (db_count s) then Some (e, s) else None
   | ICount, _ => None
   | _, _ =>
-      match mstep keys vals e s o with
+      match mstep q keys vals e s o with
       | None => None
       | Some (mo, s') => match agree vals e io mo with
                          | Some e' => Some (e', s')
@@ -124,7 +137,8 @@ Definition to_sop (keys vals : list bytes) (o : iop) : sop :=
   | IRollback r => SRollback r
   | IGet r => SGet r keys
   | IRestart => SRestart
-  | IForeign _ | ICount => SOther
+  | IForeign kvs => SForeign (kvs_of keys vals kvs)
+  | ICount => SOther
   end.
 
 Definition val_of (vals : list bytes) (c : N) : option bytes :=
@@ -157,10 +171,11 @@ Record acc := mk_acc {
 
 Definition acc0 (pfx : bool) : acc := mk_acc (st0 pfx) env0 sst0 [] true true 0%N.
 
-Definition seq_step (keys vals : list bytes) (a : acc) (b : iop * iout) : acc :=
+Definition seq_step (q : bool) (keys vals : list bytes) (a : acc) (b : iop * iout) : acc :=
+  let strict := s_pfx (a_st a) in
   let '(o, io) := b in
   (* the specification first: it only needs the replies *)
-  let '(ss', ok) := sstep (a_sst a) (to_sop keys vals o) (to_sout vals io) in
+  let '(ss', ok) := sstep strict (a_sst a) (to_sop keys vals o) (to_sout vals io) in
   let hit := match o with
              | IGet r => match a_get (a_env a) r with
                          | Some x => existsb (xroot_eqb x) (a_clob a) && all_nil io
@@ -168,7 +183,13 @@ Definition seq_step (keys vals : list bytes) (a : acc) (b : iop * iout) : acc :=
                          end
              | _ => false
              end in
-  let kf' := if a_s a && negb ok then (if hit then 1%N else 0%N) else a_kf a in
+  (* finding 2: through the queue, an acknowledged-as-failed Commit of the nil hash that waits *)
+  let hit2 := match o, io with
+              | ICommit r, ONotFound =>
+                  q && match a_get (a_env a) r with Some XNil => true | _ => false end
+              | _, _ => false
+              end in
+  let kf' := if a_s a && negb ok then (if hit then 1%N else if hit2 then 2%N else 0%N) else a_kf a in
   let s_ok := a_s a && ok in
   let clob' := match o with
                | IMemSet p [] => match a_get (a_env a) p with
@@ -178,14 +199,14 @@ Definition seq_step (keys vals : list bytes) (a : acc) (b : iop * iout) : acc :=
                | _ => a_clob a
                end in
   if a_m a then
-    match magree keys vals (a_env a) (a_st a) o io with
+    match magree q keys vals (a_env a) (a_st a) o io with
     | Some (e', s') => mk_acc s' e' ss' clob' true s_ok kf'
     | None => mk_acc (a_st a) (a_env a) ss' clob' false s_ok kf'
     end
   else mk_acc (a_st a) (a_env a) ss' clob' false s_ok kf'.
 
-Definition seq_verdict (pfx : bool) (keys vals : list bytes) (steps : list (iop * iout)) : verdict :=
-  let a := fold_left (seq_step keys vals) steps (acc0 pfx) in
+Definition seq_verdict (pfx q : bool) (keys vals : list bytes) (steps : list (iop * iout)) : verdict :=
+  let a := fold_left (seq_step q keys vals) steps (acc0 pfx) in
   (a_m a, a_s a, a_kf a).
 
 (** ---- search for a sequential order of a concurrent history ---- *)
@@ -214,7 +235,7 @@ Fixpoint lin (fuel : nat) (keys vals : list bytes) (e : env) (s : st) (rem : lis
           | Some _ => found
           | None =>
               if minimal c rem then
-                match magree keys vals e s (fst (fst c)) (snd (fst c)) with
+                match magree true keys vals e s (fst (fst c)) (snd (fst c)) with
                 | None => None
                 | Some (e', s') =>
                     match lin f keys vals e' s' (drop c rem) with
@@ -229,10 +250,10 @@ Fixpoint lin (fuel : nat) (keys vals : list bytes) (e : env) (s : st) (rem : lis
 
 Definition check_case (c : case) : verdict :=
   match c with
-  | CSeq pfx keys vals steps => seq_verdict pfx keys vals steps
+  | CSeq pfx q keys vals steps => seq_verdict pfx q keys vals steps
   | CConc pfx keys vals steps =>
       match lin (length steps) keys vals env0 (st0 pfx) steps with
-      | Some order => seq_verdict pfx keys vals order
+      | Some order => seq_verdict pfx true keys vals order
       | None => (false, true, 0%N)     (* no order explains the replies: the correspondence is broken *)
       end
   end.
